@@ -113,10 +113,13 @@ type Enc struct {
 	unsupported []string
 	localAllocs []*ssa.Alloc
 	needFP      bool
+	needBE      bool
+	axiomsUsed  []string
 	specUsed    map[string]bool
 	specDecls   []string
 	usedLock    bool
 	pendingGuard string
+	wm           map[string]string     // heap constant -> allocation counter bounding every reference stored in it
 	frameOf      map[string]*frameInfo // framed heap constant -> what it preserves
 	baseOf       map[string]string     // named heap constant defined as a store chain -> its base term
 	rootMemo    map[string]string
@@ -134,11 +137,11 @@ func newEnc(w *World, cs *Contracts, fn *ssa.Function) *Enc {
 		edge: map[[2]int]string{}, loops: map[*ssa.BasicBlock]*loopInfo{}, inLoop: map[*ssa.BasicBlock][]*loopInfo{},
 		localCells: map[string][]string{}, names: map[string]ssa.Value{}, nameAt: map[*ssa.BasicBlock]map[string]ssa.Value{},
 		trustedUsed: map[string]bool{}, rootMemo: map[string]string{}, sliceRoot: map[string]string{},
-		frameOf: map[string]*frameInfo{}, baseOf: map[string]string{}}
+		frameOf: map[string]*frameInfo{}, baseOf: map[string]string{}, wm: map[string]string{}}
 	if e.name == "" {
 		e.name = funcName(fn)
 	}
-	e.ct = cs.ByFunc[e.name]
+	e.ct = cs.For(e.name)
 	if e.ct != nil {
 		e.precise = e.ct.Bytes == "array"
 		e.checkOvf = e.ct.Overflow == "check"
@@ -175,7 +178,15 @@ func (e *Enc) unsupp(format string, a ...interface{}) {
 // ---------------------------------------------------------------------------------------------
 // sorts
 
+func isBigInt(t types.Type) bool {
+	n, ok := t.(*types.Named)
+	return ok && n.Obj().Pkg() != nil && n.Obj().Pkg().Path() == "math/big" && n.Obj().Name() == "Int"
+}
+
 func (e *Enc) sortOf(t types.Type) string {
+	if isBigInt(t) {
+		return "Int" // a big.Int value is its mathematical value (ghost heap $big holds the value of each *big.Int)
+	}
 	switch u := under(t).(type) {
 	case *types.Basic:
 		switch {
@@ -229,6 +240,9 @@ func (e *Enc) structSort(t types.Type, st *types.Struct) string {
 }
 
 func (e *Enc) zero(t types.Type) string {
+	if isBigInt(t) {
+		return "0"
+	}
 	switch u := under(t).(type) {
 	case *types.Basic:
 		switch {
@@ -262,6 +276,9 @@ func (e *Enc) zero(t types.Type) string {
 
 // typeFacts: well-typedness facts for a value of Go type t held in SMT term x.
 func (e *Enc) typeFacts(x string, t types.Type) string {
+	if isBigInt(t) {
+		return "true"
+	}
 	switch u := under(t).(type) {
 	case *types.Basic:
 		if u.Info()&types.IsInteger != 0 {
@@ -348,6 +365,9 @@ func (e *Enc) epochGet(ep *epoch, key, sort string) string {
 	}
 	e.declare(n, full)
 	ep.memo[key] = n
+	if key != "$A" && !strings.HasPrefix(key, "$s:") {
+		e.wm[n] = e.epochGet(ep, "$A", "Int")
+	}
 	prev := ep.prev
 	if prev == nil && ep.delegate != nil {
 		prev = ep.delegate
@@ -393,6 +413,9 @@ func (e *Enc) keyForAddr(addrV ssa.Value, t types.Type) string {
 
 // load reads a value of Go type t stored at address term addr (whose producing SSA value is addrV, possibly nil).
 func (e *Enc) load(h *Heap, addr string, addrV ssa.Value, t types.Type) string {
+	if isBigInt(t) {
+		return e.sel(e.heapGet(h, "$big", "Int"), addr)
+	}
 	switch u := under(t).(type) {
 	case *types.Struct:
 		_, name := structOf(t)
@@ -444,6 +467,10 @@ func (e *Enc) loadField(h *Heap, base, structName string, st *types.Struct, i in
 
 // store writes value v of Go type t at addr.
 func (e *Enc) store(h *Heap, addr string, addrV ssa.Value, t types.Type, v string) {
+	if isBigInt(t) {
+		h.m["$big"] = app("store", e.heapGet(h, "$big", "Int"), addr, v)
+		return
+	}
 	switch u := under(t).(type) {
 	case *types.Struct:
 		_, name := structOf(t)
@@ -529,6 +556,7 @@ func (e *Enc) havocKey(h *Heap, key string) {
 	}
 	old := e.heapGet(h, key, srt)
 	n := e.fresh("H_"+sanitize(key), "(Array Ref "+srt+")")
+	e.wm[n] = e.allocCounter(h)
 	for _, c := range e.localCells[key] {
 		e.assert(app("=", app("select", n, c), app("select", old, c)))
 	}
@@ -1035,5 +1063,61 @@ func (e *Enc) havocKeyFramed(h *Heap, key string, apre string, except []string) 
 	old := e.heapGet(h, key, srt)
 	n := e.fresh("H_"+sanitize(key), "(Array Ref "+srt+")")
 	e.frameOf[n] = &frameInfo{prev: old, apre: apre, except: except}
+	e.wm[n] = e.allocCounter(h)
 	h.m[key] = n
+}
+
+// readBases: the heap constants a read of ht at addr may fall through to (through stores, frames, joins).
+func (e *Enc) readBases(ht string, depth int, out map[string]bool) {
+	if depth > 10 {
+		out["?"] = true
+		return
+	}
+	if fi, ok := e.frameOf[ht]; ok {
+		out[ht] = true
+		e.readBases(fi.prev, depth+1, out)
+		return
+	}
+	if strings.HasPrefix(ht, "(store ") {
+		a := splitArgs(ht)
+		if len(a) == 4 {
+			e.readBases(a[1], depth, out)
+			return
+		}
+	}
+	if strings.HasPrefix(ht, "(ite ") {
+		a := splitArgs(ht)
+		if len(a) == 4 {
+			e.readBases(a[2], depth+1, out)
+			e.readBases(a[3], depth+1, out)
+			return
+		}
+	}
+	if def, ok := e.baseOf[ht]; ok {
+		e.readBases(def, depth+1, out)
+		return
+	}
+	out[ht] = true
+}
+
+// loadedRefFacts: a reference read from the heap was allocated no later than the heap constant it is read from was
+// created (stores in between contribute values the solver already knows exactly).
+func (e *Enc) loadedRefFacts(h *Heap, key, srt, addr string) {
+	if srt != "Ref" && srt != "Slice" {
+		return
+	}
+	ht := e.heapGet(h, key, srt)
+	bases := map[string]bool{}
+	e.readBases(ht, 0, bases)
+	for b := range bases {
+		w, ok := e.wm[b]
+		if !ok || b == "?" {
+			continue
+		}
+		rd := app("select", b, addr)
+		if srt == "Slice" {
+			rd = app("sarr", rd)
+		}
+		e.assert(app("<=", app("rootid", rd), w))
+	}
 }
